@@ -521,7 +521,7 @@ func TestVerifC06(t *testing.T) {
 
 	// ---- basic auth (htpasswd FILE mode) ----
 	users := []string{"u", "ü"}
-	passwords := []string{"p", "p:q", "ü", "", "longer password with spaces"}
+	passwords := []string{"p", "p:q", "ü", "", "longer password with spaces", "p ", " p", "p\t"}
 	schemes := []string{"bcrypt", "sha"}
 	basicRun := func(c *mc.Ctx) {
 		ui := c.Choose(len(users), "user")
@@ -550,6 +550,19 @@ func TestVerifC06(t *testing.T) {
 		muts := []c06Mut{
 			{"password-with-suffix-after-colon", func(r *c06Req) bool { r.hdr.Set("Authorization", auth(user, pw+":anything")); return true }},
 			{"password-with-suffix", func(r *c06Req) bool { r.hdr.Set("Authorization", auth(user, pw+"x")); return true }},
+			{"password-with-trailing-blank", func(r *c06Req) bool { r.hdr.Set("Authorization", auth(user, pw+" ")); return true }},
+			{"password-with-trailing-newline", func(r *c06Req) bool { r.hdr.Set("Authorization", auth(user, pw+"\n")); return true }},
+			{"password-with-trailing-crlf", func(r *c06Req) bool { r.hdr.Set("Authorization", auth(user, pw+"\r\n")); return true }},
+			{"password-with-leading-blank", func(r *c06Req) bool { r.hdr.Set("Authorization", auth(user, " "+pw)); return true }},
+			{"user-with-leading-blank", func(r *c06Req) bool { r.hdr.Set("Authorization", auth(" "+user, pw)); return true }},
+			{"user-with-trailing-blank", func(r *c06Req) bool { r.hdr.Set("Authorization", auth(user+" ", pw)); return true }},
+			{"password-without-its-last-byte", func(r *c06Req) bool {
+				if len(pw) < 1 {
+					return false
+				}
+				r.hdr.Set("Authorization", auth(user, pw[:len(pw)-1]))
+				return true
+			}},
 			{"password-prefix-only", func(r *c06Req) bool {
 				if len(pw) < 2 {
 					return false
@@ -576,6 +589,8 @@ func TestVerifC06(t *testing.T) {
 			cls = "empty-password"
 		} else if pw == "ü" || user == "ü" {
 			cls = "non-ascii"
+		} else if strings.TrimSpace(pw) != pw {
+			cls = "password-with-outer-white-space"
 		}
 		check(c, v, "basic", cls, base, muts, 401, spec)
 	}
